@@ -1,6 +1,5 @@
 /-
-  OFV.Lemmas.RTInstr — round trip of InstrGotoTable / InstrWriteMetadata through DecodeInstr, and what happens to
-  InstrMeter.  Used by OFV/Props/C05.lean.
+  OFV.Lemmas.RTInstr — round trip of InstrGotoTable / InstrWriteMetadata / InstrMeter through DecodeInstr.  Used by OFV/Props/C05.lean.
 -/
 import OFV.Model.All
 import OFV.Lemmas.Size
@@ -117,50 +116,34 @@ theorem instrWriteMetadata_rt (ln md mk kp : Nat) (hln : ln < 65536) (hmd : md <
     simp [copyInto, v']
 
 
-/-- InstrMeter has no methods of its own: it encodes as the 4 bytes of its InstrHeader, so the MeterId is never
-    written.  Decoding those 4 bytes alone yields MeterId 0; and because InstrHeader.UnmarshalBinary insists on exactly
-    4 bytes and DecodeInstr drops its error, decoding them with anything behind yields the all-zero instruction. -/
-theorem instrMeter_decode (ln mid : Nat) (hln : ln < 65536) :
-    let hdr := V.obj "InstrHeader" [.num Gen.openflow13.InstrType_METER, .num ln]
-    let v := V.obj "InstrMeter" [hdr, .num mid]
-    let bs := be16 (n16 Gen.openflow13.InstrType_METER) ++ be16 (n16 ln)
-    Instruction.marshalM v = .ok (bs, v) ∧ Instruction.lenM v = .ok (4, v) ∧
-    (∀ (data : Slice), data.WF → data.bytes = bs → DecodeInstr data = .ok (.obj "InstrMeter" [hdr, .num 0])) ∧
-    (∀ (data : Slice) (tail : Bytes), data.WF → data.bytes = bs ++ tail → tail ≠ [] →
-      DecodeInstr data = .ok InstrMeter.zero) := by
-  intro hdr v bs
+/-- InstrMeter: header and the 32-bit meter id, 8 bytes -/
+theorem instrMeter_rt (ln mid : Nat) (hln : ln < 65536) (hmid : mid < 4294967296) :
+    let v := V.obj "InstrMeter" [.obj "InstrHeader" [.num Gen.openflow13.InstrType_METER, .num ln], .num mid]
+    let bs := be16 (n16 Gen.openflow13.InstrType_METER) ++ be16 (n16 ln) ++ be32 (n32 mid)
+    Instruction.marshalM v = .ok (bs, v) ∧ Instruction.lenM v = .ok (8, v) ∧
+    ∀ (data : Slice) (tail : Bytes), data.WF → data.bytes = bs ++ tail → DecodeInstr data = .ok v := by
+  intro v bs
+  refine ⟨rfl, rfl, ?_⟩
+  intro data tail hd hb
+  have hlen := Slice.len_ge_of_bytes data _ _ hb
+  have hlen8 : 8 ≤ data.len := by
+    have : bs.length = 8 := rfl
+    omega
   have ht : (n16 Gen.openflow13.InstrType_METER).toNat = Gen.openflow13.InstrType_METER := by decide
-  have hdisp : ∀ data : Slice, data.WF → ∀ tail, data.bytes = bs ++ tail → DecodeInstr data =
-      (do let (v, _) ← catchErr (InstrMeter.unmarshal InstrMeter.zero data) InstrMeter.zero; pure v) := by
-    intro data hd tail hb
-    unfold DecodeInstr
-    rw [instr_type data hd Gen.openflow13.InstrType_METER (be16 (n16 ln) ++ tail)
-      (by rw [hb]; simp only [bs, List.append_assoc])]
-    simp only [Res.bind_ok, ht]
-    rw [if_neg (by decide), if_neg (by decide), if_neg (by decide), if_pos trivial]
-  refine ⟨rfl, rfl, ?_, ?_⟩
-  · intro data hd hb
-    have hl4 : data.len = 4 := by
-      rw [← Slice.bytes_length data hd, hb]; rfl
-    rw [hdisp data hd [] (by rw [hb]; simp)]
-    simp only [InstrMeter.unmarshal, InstrMeter.zero, InstrHeader.zero, InstrHeader.unmarshal, hl4]
-    have e0 : rd16 ((data.bytes.drop 0).take (2 - 0)) = some (n16 Gen.openflow13.InstrType_METER) := by
-      rw [hb]; rfl
-    have e2 : rd16 ((data.bytes.drop 2).take (4 - 2)) = some (n16 ln) := by
-      rw [hb]
-      have : (List.drop 2 bs).take (4 - 2) = be16 (n16 ln) := rfl
-      rw [this]; exact rd16_be16' _
-    simp only [ne_eq, not_true_eq_false, if_false, Slice.u16In_eq data hd 0 2 (by omega) (by omega),
-      Slice.u16In_eq data hd 2 4 (by omega) (by omega), e0, e2, Res.ofOption, Res.bind_ok, Res.pure_eq, catchErr,
-      u16_n16 ln hln]
-    rfl
-  · intro data tail hd hb hne
-    have hl : data.len ≠ 4 := by
-      rw [← Slice.bytes_length data hd, hb]
-      have : 0 < tail.length := List.length_pos_iff.mpr hne
-      simp only [List.length_append, bs, be16_length]; omega
-    rw [hdisp data hd tail hb]
-    simp only [InstrMeter.unmarshal, InstrMeter.zero, InstrHeader.zero, InstrHeader.unmarshal, hl, ne_eq,
-      not_false_eq_true, if_true, Res.bind_err, catchErr, Res.bind_ok, Res.pure_eq]
+  unfold DecodeInstr
+  rw [instr_type data hd Gen.openflow13.InstrType_METER (be16 (n16 ln) ++ (be32 (n32 mid) ++ tail))
+    (by rw [hb]; simp only [bs, List.append_assoc])]
+  simp only [Res.bind_ok, ht]
+  rw [if_neg (by decide), if_neg (by decide), if_neg (by decide), if_pos trivial]
+  simp only [InstrMeter.unmarshal, InstrMeter.zero, InstrHeader.zero]
+  rw [if_neg (by omega)]
+  rw [instrHeader_unmarshal4 _ data hd Gen.openflow13.InstrType_METER ln (by decide) hln (be32 (n32 mid) ++ tail)
+    (by rw [hb]; simp only [bs, List.append_assoc])]
+  have e4 : rd32 (data.bytes.drop 4) = some (n32 mid) := by
+    rw [hb]
+    have : List.drop 4 (bs ++ tail) = be32 (n32 mid) ++ tail := rfl
+    rw [this]; exact rd32_be32 _ _
+  simp only [Res.bind_ok, Slice.u32From_eq, e4, Res.ofOption, Res.pure_eq, catchErr, u32_n32 mid hmid]
+  rfl
 
 end OFV.RT
